@@ -48,6 +48,9 @@ type c19Case struct {
 	GoPackage string
 	Services  []c19Service
 	Params    []string
+	// AlsoDep: the messages-only dependency file is named for generation too (protoc dir/*.proto), before
+	// ("first") or after ("last") the file under test; it has no services, so it adds no output
+	AlsoDep string `json:",omitempty"`
 }
 
 var (
@@ -428,6 +431,8 @@ func c19Placement(c c19Case) (ownPath, ownName, depPath, module string) {
 	depSpec := "example.com/dep;deppb"
 	if m, ok := imap[c19DepFile]; ok {
 		depSpec = m
+	} else if importPath != "" && c.AlsoDep != "" {
+		depSpec = importPath // import_path speaks for every file named for generation that has no M mapping
 	}
 	depPath, _ = c19GoPkg(depSpec, c19DepFile, "dep.pkg")
 	return
@@ -467,6 +472,14 @@ func propC19(c c19Case) *Outcome {
 	req := &pluginpb.CodeGeneratorRequest{
 		FileToGenerate: []string{c.FileName},
 		ProtoFile:      []*descriptorpb.FileDescriptorProto{c19DepProto(), protodesc.ToFileDescriptorProto(emptypb.File_google_protobuf_empty_proto), c.fileProto()},
+	}
+	switch c.AlsoDep {
+	case "first":
+		req.FileToGenerate = []string{c19DepFile, c.FileName}
+		o.class("several-files-to-generate")
+	case "last":
+		req.FileToGenerate = []string{c.FileName, c19DepFile}
+		o.class("several-files-to-generate")
 	}
 	if len(c.Params) > 0 {
 		req.Parameter = proto.String(strings.Join(c.Params, ","))
@@ -705,6 +718,7 @@ func genC19(t *rapid.T) c19Case {
 		}
 		c.Services = append(c.Services, s)
 	}
+	c.AlsoDep = rapid.SampledFrom([]string{"", "", "first", "last"}).Draw(t, "alsodep")
 	np := rapid.IntRange(0, 4).Draw(t, "nparams")
 	pool := []string{"legacy_stubs", "legacy_stubs", "legacy_stubs=true", "legacy_stubs=on", "legacy_stubs=YES", "legacy_stubs=1", "legacy_stubs=false", "legacy_stubs=0", "legacy_desc_names", "legacy_desc_names=true", "legacy_desc_names=no",
 		"debug", "debug=off", "paths=import", "paths=source_relative", "module=example.com/mod", "module=example.com/foo", "import_path=example.com/override", "import_path=example.com/override/v2;ovr", "Mdep/dep.proto=example.com/other/dep", "Msvc.proto=example.com/m/svc;svcpb", "Ma/b/svc.proto=example.com/mod/ab", "Mx_y/my_api.proto=example.com/m/api;apipb",
